@@ -6,6 +6,6 @@ CONSTANTS
   MaxNodes = 3
   FixArchiveAncestors = TRUE
   DirLists = {{"x"}, {"x", "y"}, {""}}
-INVARIANTS ArchiveAgrees ListedIsReachable ParentIdAgrees DirAssetsAgree
+INVARIANTS ArchiveAgrees ListedIsReachable ParentIdAgrees DirAssetsAgree FollowAgrees
 VIEW View
 CHECK_DEADLOCK FALSE
